@@ -75,6 +75,7 @@ inductive Act
 
 structure In where
   streamFrom : String            -- `cascadeTopology[host].StreamFrom`
+  master : String := ""          -- the recorded master (fallback of the blind branch)
   lostTimerZero : Bool           -- `app.t.Get(StreamFromFailedAt, host).IsZero()`
   candidate : BSF                -- result of `findBestStreamFrom`
   changeBlindOk : Bool := true   -- the blind `performChangeMaster` succeeded
@@ -89,8 +90,10 @@ def repairCascade (host : String) (st : NodeState) (cs : ClusterState) (i : In) 
   match st.slave with
   | none =>
     -- "Blindly change master"
-    if host == i.streamFrom then [.panic "performChangeMaster: host == master"]
-    else if i.changeBlindOk then [.changeMaster i.streamFrom, .startSlave] else [.changeMaster i.streamFrom]
+    -- a self-reference falls back to the master (an explicit panic in performChangeMaster before fix: 731a354)
+    let sf := if host == i.streamFrom then i.master else i.streamFrom
+    if host == sf then [.panic "performChangeMaster: host == master"]
+    else if i.changeBlindOk then [.changeMaster sf, .startSlave] else [.changeMaster sf]
   | some sl =>
     let running := sl.state == .running
     let upstream := sl.masterHost
